@@ -49,7 +49,11 @@ func (m *Model) CrossCheck() {
 
 				continue
 			}
-			if s.UserID != ma.User || s.Relay != ma.Relay {
+			wantUser := ma.User
+			if m.W.Cfg.EmptyUserID {
+				wantUser = "" // the operator's auth handler hands out no user ids
+			}
+			if s.UserID != wantUser || s.Relay != ma.Relay {
 				m.Rec.Violate("snap-alloc-mismatch", "user-or-relay", "allocation %s: server has user=%s relay=%s, model user=%s relay=%s", s.Src, s.UserID, s.Relay, ma.User, ma.Relay)
 			}
 			if st == Maybe {
